@@ -13,7 +13,7 @@ sys.path.insert(0, os.path.join(VERIF, "tools"))
 
 REGISTRY = {
     "C02": ("raid", "C02"), "C03": ("raid", "C03"),
-    "C06": ("pbt", "c06"), "C01": ("pbt", "c01"), "C07": ("pbt", "c07"), "C11": ("pbt", "c11"), "C05": ("pbt", "c05"), "C04": ("pbt", "c04"), "C12": ("pbt", "c12"), "C14": ("pbt", "c14"), "C10": ("pbt", "c10"), "C20": ("pbt", "c20"), "C15": ("pbt", "c15"), "C17": ("pbt", "c17"), "C18": ("pbt", "c18"), "C19": ("pbt", "c19"), "C08": ("pbt", "c08"), "C09": ("pbt", "c09"), "C16": ("c16", "C16"),
+    "C06": ("pbt", "c06"), "C01": ("pbt", "c01"), "C07": ("pbt", "c07"), "C11": ("pbt", "c11"), "C05": ("pbt", "c05"), "C04": ("pbt", "c04"), "C12": ("pbt", "c12"), "C14": ("pbt", "c14"), "C10": ("pbt", "c10"), "C20": ("pbt", "c20"), "C15": ("pbt", "c15"), "C17": ("pbt", "c17"), "C18": ("pbt", "c18"), "C19": ("pbt", "c19"), "C08": ("pbt", "c08"), "C09": ("pbt", "c09"), "C13": ("pbt", "c13"), "C16": ("c16", "C16"),
 }
 
 
